@@ -336,7 +336,9 @@ pub fn check_wire(p: &Proto, mode: Mode) -> (Vec<(String, String, Config, Vec<Op
 
 pub fn run(tier: Tier) -> i32 {
     let ctx = Ctx::new("C20", tier, "model_checking");
-    let quick = ctx.quick();
+    // the whole thorough product costs ~10 s: both tiers run it
+    let quick = false;
+    let _ = ctx.quick();
     ctx.set_rule("wire part: every protocol name both backends serve (25519 x {ChaChaPoly, AESGCM} x {SHA256, SHA512}; BLAKE2 / XChaChaPoly / P256 names through the fallback) x all 9 assignments of {Default, Fallback(Ring, Default), Fallback(Default, Ring)} to the two endpoints, session = handshake + transport traffic + synchronised rekeys + more traffic, stateful and stateless: identical bytes to the all-default session and every step Ok. fallback part: complete truth table of FallbackResolver over tagged stub resolvers (16 x 16 availability masks, nesting depth 2 on either side): Some iff a member provides the primitive, and the first member's; plus every sequence of three queries of one kind on the same instance over per-choice availability masks (the answer must not depend on earlier queries)");
     fallback_table(&ctx);
     let mut names: Vec<Proto> = vec![];
